@@ -1,8 +1,8 @@
-import Splipy.Lemmas.C17Tables
-import Splipy.Lemmas.C17Equiv
+import Splipy.Lemmas.C17Rational
 
 /-! Lemmas for C17: sections of objects — enumeration tables (parametric dimension ≤ 3, kernel
-evaluation over the complete finite lists), the universe `GU` of well-formed non-rational objects,
+evaluation over the complete finite lists), the universe `GU` of well-formed objects (rational with
+positive weights, or not),
 and compatibility of `≈` with sections. -/
 
 namespace Splipy.MP
@@ -127,42 +127,75 @@ theorem mapSection_commutes {α : Type} [Inhabited α] {n : ℕ} (hn : n ≤ 3) 
         rw [ho.isPerm.length]; exact hc2) hpos,
       ← Reindex.apply_comp _ _ X (by rw [hX]; exact hc1) hc3 hpos, heq]
 
-/-- The universe of the catalogue theorem: well-formed NON-RATIONAL array objects with `nc`
-    components per control point and parametric dimension ≤ 3. -/
-structure GU (nc : ℕ) (x : Obj) : Prop where
-  nonrat : x.rational = false
+/-- The universe of the catalogue theorem: well-formed array objects of physical dimension `D`
+    (`D` components per control point, plus a POSITIVE weight when rational) and parametric
+    dimension ≤ 3.  Rational and non-rational objects may be mixed. -/
+structure GU (D : ℕ) (x : Obj) : Prop where
   good : x.Good
-  comps : ∀ k, k < x.cps.data.size → (x.cps.data.getD k []).length = nc
+  comps : ∀ k, k < x.cps.data.size →
+    (x.cps.data.getD k []).length = D + (if x.rational then 1 else 0)
+  wpos : x.rational = true → WPos x.cps
   small : x.pardim ≤ 3
 
-theorem GU.ncomp {nc : ℕ} {x : Obj} (h : GU nc x) : x.ncomp = nc := by
+theorem GU.size_pos {D : ℕ} {x : Obj} (h : GU D x) : 0 < x.cps.data.size := by
+  rw [h.good.size]; exact shapeSize_pos h.good.pos
+
+theorem GU.ncomp {D : ℕ} {x : Obj} (h : GU D x) : x.ncomp = D + (if x.rational then 1 else 0) := by
   unfold Obj.ncomp
-  apply h.comps
-  rw [h.good.size]
-  exact shapeSize_pos h.good.pos
+  exact h.comps 0 h.size_pos
 
-theorem GU.dimension {nc : ℕ} {x : Obj} (h : GU nc x) : x.dimension = nc := by
-  simp [Obj.dimension, h.ncomp, h.nonrat]
+theorem GU.dimension {D : ℕ} {x : Obj} (h : GU D x) : x.dimension = D := by
+  unfold Obj.dimension
+  rw [h.ncomp]
+  cases x.rational <;> simp
 
-theorem GU.netOf {nc : ℕ} {x : Obj} (h : GU nc x) : netOf x = x.cps := by
-  simp [MP.netOf, h.nonrat]
+theorem GU.qpos {D : ℕ} {x : Obj} (h : GU D x) : WPos (qnet x) := by
+  unfold qnet
+  by_cases hr : x.rational = true
+  · rw [if_pos hr]; exact h.wpos hr
+  · rw [if_neg hr]
+    intro k hk
+    have hk' : k < x.cps.data.size := by simpa [promoteNet, NdArr.map] using hk
+    simp [promoteNet, NdArr.map, Array.getD_eq_getD_getElem?, hk', lastD]
+
+theorem GU.wsum_ne {D : ℕ} {x : Obj} (h : GU D x) : wsum (qnet x) ≠ 0 :=
+  ne_of_gt (wsum_pos (by rw [qnet_size]; exact h.size_pos) h.qpos)
+
+/-- an entry of a section is an entry of the array -/
+theorem sect_data_getD {α : Type} [Inhabited α] (X : NdArr α) (sec : Sec) (d : α)
+    (hc : (Sec.toReindex sec).Consistent X.shape.length = true) (hpos : ∀ n ∈ X.shape, 0 < n)
+    (hsz : X.data.size = shapeSize X.shape) (k : ℕ) (hk : k < (X.sect sec).data.size) :
+    ∃ j, j < X.data.size ∧ (X.sect sec).data.getD k d = X.data.getD j d := by
+  have hk' : k < shapeSize ((Sec.toReindex sec).shape X.shape) := by
+    rw [show (X.sect sec).data.size = shapeSize ((Sec.toReindex sec).shape X.shape) from
+      apply_data_size _ _] at hk; exact hk
+  have hlt := flatIdx_lt (Sec.toReindex sec) X.shape hc hpos k hk'
+  refine ⟨flatIdx (Sec.toReindex sec) X.shape k, by rw [hsz]; exact hlt, ?_⟩
+  have h1 := apply_data_getD (Sec.toReindex sec) X k hk'
+  have hk2 : k < ((Sec.toReindex sec).apply X).data.size := hk
+  have hj : flatIdx (Sec.toReindex sec) X.shape k < X.data.size := by rw [hsz]; exact hlt
+  rw [Array.getD_eq_getD_getElem?, Array.getElem?_eq_getElem hk2, Option.getD_some,
+    Array.getD_eq_getD_getElem?, Array.getElem?_eq_getElem hj, Option.getD_some] at h1
+  show ((Sec.toReindex sec).apply X).data.getD k d = _
+  rw [Array.getD_eq_getD_getElem?, Array.getElem?_eq_getElem hk2, Option.getD_some,
+    Array.getD_eq_getD_getElem?, Array.getElem?_eq_getElem hj, Option.getD_some]
+  exact h1
 
 open Orientation in
-theorem GU.sect {nc : ℕ} {x : Obj} (h : GU nc x) {sec : Sec} (hs : sec.length = x.pardim) :
-    GU nc (x.sect sec) := by
+theorem GU.sect {D : ℕ} {x : Obj} (h : GU D x) {sec : Sec} (hs : sec.length = x.pardim) :
+    GU D (x.sect sec) := by
   have hrow := secTable h.small hs
   simp only [secRow, Bool.and_eq_true, decide_eq_true_eq, List.all_eq_true] at hrow
   obtain ⟨⟨hvl, hvlt⟩, _⟩ := hrow
-  have hst := sectionTable h.small (Orientation.identity_wf x.pardim) hs
-  simp only [sectionRow, Bool.and_eq_true, decide_eq_true_eq] at hst
+  have hax : x.cps.shape.length = x.pardim := h.good.axes
   have hcons : (Sec.toReindex sec).Consistent x.cps.shape.length = true := by
-    have : x.cps.shape.length = x.pardim := h.good.axes
-    rw [this]; exact hst.1.1.1.1.1.2
+    rw [hax]; exact sec_consistent h.small hs
   have hvin : ∀ e ∈ variableDirs sec, e < x.shape.length := by
     intro e he
     rw [h.good.axes]
     exact hvlt e he
-  refine ⟨h.nonrat, ⟨?_, ?_, ?_, ?_⟩, ?_, ?_⟩
+  have hentry := fun k hk => sect_data_getD x.cps sec [] hcons h.good.pos h.good.size k hk
+  refine ⟨⟨?_, ?_, ?_, ?_⟩, ?_, ?_, ?_⟩
   · rw [Obj.sect_shape, Obj.sect_pardim]; simp
   · show ((Sec.toReindex sec).apply x.cps).data.size = shapeSize ((Sec.toReindex sec).apply x.cps).shape
     simp [Reindex.apply, NdArr.ofFn]
@@ -178,23 +211,13 @@ theorem GU.sect {nc : ℕ} {x : Obj} (h : GU nc x) {sec : Sec} (hs : sec.length 
     rw [List.getD_eq_getElem _ _ hk]
     exact hvlt _ (List.getElem_mem _)
   · intro k hk
-    have hk' : k < shapeSize ((Sec.toReindex sec).shape x.cps.shape) := by
-      have : (x.sect sec).cps.data.size = shapeSize ((Sec.toReindex sec).shape x.cps.shape) := by
-        simp [Obj.sect, NdArr.sect, Reindex.apply, NdArr.ofFn]
-      rw [this] at hk; exact hk
-    have hval : (x.sect sec).cps.data.getD k [] =
-        x.cps.get ((Sec.toReindex sec).index x.cps.shape (unravel ((Sec.toReindex sec).shape x.cps.shape) k)) := by
-      simp [Obj.sect, NdArr.sect, Reindex.apply, NdArr.ofFn, Array.getD_eq_getD_getElem?, hk']
-    rw [hval]
-    have hin := Reindex.index_inRange (Sec.toReindex sec) x.cps.shape _ hcons h.good.pos
-      (unravel_inRange hk')
-    have hlt := ravel_lt hin
-    unfold NdArr.get
-    have hlt' : ravel x.cps.shape ((Sec.toReindex sec).index x.cps.shape
-        (unravel ((Sec.toReindex sec).shape x.cps.shape) k)) < x.cps.data.size := by
-      rw [h.good.size]; exact hlt
-    have := h.comps _ hlt'
-    simpa [Array.getD_eq_getD_getElem?, hlt'] using this
+    obtain ⟨j, hj, he⟩ := hentry k hk
+    show ((x.cps.sect sec).data.getD k []).length = _
+    rw [he, Obj.sect_rational]; exact h.comps j hj
+  · intro hr k hk
+    obtain ⟨j, hj, he⟩ := hentry k hk
+    show 0 < lastD ((x.cps.sect sec).data.getD k [])
+    rw [he]; exact h.wpos hr j hj
   · rw [Obj.sect_pardim, hvl]
     have := h.small
     have hle : secTgtDim sec ≤ sec.length := by
@@ -203,13 +226,11 @@ theorem GU.sect {nc : ℕ} {x : Obj} (h : GU nc x) {sec : Sec} (hs : sec.length 
 
 /-- **`≈` is compatible with sections**: if `o = compute a b` then the section `sec` of `b` is
     equivalent to the section `o.map_section(sec)` of `a` (through `o.view_section(sec)`). -/
-theorem sect_equiv {nc : ℕ} {a b : Obj} (ha : GU nc a) (hb : GU nc b) {o : Orientation}
+theorem sect_equiv {D : ℕ} {a b : Obj} (ha : GU D a) (hb : GU D b) {o : Orientation}
     (hc : Orientation.compute a b = .ok o) {sec : Sec} (hs : sec.length = b.pardim) :
     Equiv (a.sect (o.mapSection sec)) (b.sect sec) := by
   obtain ⟨hwf, hfit, hp, _⟩ := compute_sound a b o hc
-  have hr : a.rational = b.rational := by rw [ha.nonrat, hb.nonrat]
-  obtain ⟨_, harr, hbm⟩ := (fits_same_iff hr o).1 hfit
-  rw [ha.netOf, hb.netOf] at harr
+  obtain ⟨_, harr, hbm⟩ := (fits_pnet_iff hwf hb.good hp.symm).1 hfit
   have hn : a.pardim ≤ 3 := ha.small
   have hs' : sec.length = a.pardim := by rw [hs, hp]
   -- tables
@@ -231,16 +252,32 @@ theorem sect_equiv {nc : ℕ} {a b : Obj} (ha : GU nc a) (hb : GU nc b) {o : Ori
     rw [Obj.sect_pardim, hvlen, hsr.1.1]; exact hvwf
   apply compute_complete _ _ hgb.good.axes hpd (by rw [hga.dimension, hgb.dimension])
   refine ⟨o.viewSection sec, hvwf', ?_⟩
-  have hr' : (a.sect (o.mapSection sec)).rational = (b.sect sec).rational := by
-    rw [Obj.sect_rational, Obj.sect_rational, hr]
-  rw [fits_same_iff hr', hga.netOf, hgb.netOf]
-  have hnet : (o.viewSection sec).mapArray (b.sect sec).cps = (a.sect (o.mapSection sec)).cps := by
-    show (o.viewSection sec).mapArray (b.cps.sect sec) = a.cps.sect (o.mapSection sec)
-    rw [← harr]
-    exact (mapSection_commutes hn hwf hs' b.cps (by rw [hp]; exact hb.good.axes) hb.good.pos).symm
+  rw [fits_pnet_iff hvwf' hgb.good hpd.symm]
+  -- the canonical nets
+  have hpb_len : (pnet b).shape.length = a.pardim := by rw [pnet_shape, hp]; exact hb.good.axes
+  have hpb_pos : ∀ m ∈ (pnet b).shape, 0 < m := by rw [pnet_shape]; exact hb.good.pos
+  have hcomm := mapSection_commutes hn hwf hs' (pnet b) hpb_len hpb_pos
+  rw [harr] at hcomm
+  have hsb_len : ((pnet b).sect sec).shape.length = (a.sect (o.mapSection sec)).pardim := by
+    show ((Sec.toReindex sec).shape (pnet b).shape).length = _
+    rw [Reindex.shape_length, Obj.sect_pardim, hvlen]; rfl
+  have hsb_pos : ∀ m ∈ ((pnet b).sect sec).shape, 0 < m := by
+    have := hgb.good.pos
+    rw [Obj.sect_shape] at this
+    show ∀ m ∈ (Sec.toReindex sec).shape (pnet b).shape, 0 < m
+    rw [pnet_shape]; exact this
+  have hsb_sz : ((pnet b).sect sec).data.size = shapeSize ((pnet b).sect sec).shape :=
+    apply_data_size _ _
+  have hnet : (o.viewSection sec).mapArray (pnet (b.sect sec)) = pnet (a.sect (o.mapSection sec)) := by
+    rw [pnet_sect b sec hb.small hs hb.good hb.wsum_ne,
+      pnet_sect a (o.mapSection sec) ha.small hml ha.good ha.wsum_ne, hcomm,
+      mapArray_normWeights hvwf' _ hsb_len hsb_pos hsb_sz]
   refine ⟨?_, hnet, ?_⟩
   · have := congrArg NdArr.shape hnet
-    exact this
+    rw [pnet_shape] at this
+    rw [← this]
+    show (o.viewSection sec).mapShape (b.sect sec).shape = (o.viewSection sec).mapShape (pnet (b.sect sec)).shape
+    rw [pnet_shape]
   · rw [basesMatch_iff]
     intro k hk
     rw [Obj.sect_pardim] at hk
